@@ -6,6 +6,7 @@ from intervals import Intervals
 from algebra import fact_of_guard, canon_le, lin
 import libmodel
 
+_CELLSEM = {}
 ENC_RE = re.compile(r"msg::msg1\d{3}::msg1\d{3}_data::encode")
 DEC_RE = re.compile(r"msg::msg1\d{3}::msg1\d{3}_data::decode")
 ERR = "rtcm_error::RtcmError"
@@ -461,12 +462,18 @@ def rule_decode(prog, res, floor=49):
                             okg = c2 == n - 1 and len(l2) == 1 and list(l2)[0][1] == -1
                 ok = k == 1 and rng_ok and okg
                 d = "pushes %s under the bit test" % show(v, ga.names)
-        if not ok:
-            okk, dd = _idvec_semantics(prog, g, n)
-            if okk:
-                ok, d = True, dd
-            elif dd:
-                d = (d + " ; " if d else "") + dd
+        import guardsem
+        okk, dd = guardsem.check_idvec(prog, name, n)
+        if okk is True:
+            ok, d = True, dd
+        elif okk is False:
+            ok, d = False, dd           # the interpreter decided the function and it does not meet the specification
+        elif not ok:
+            okk2, dd2 = _idvec_semantics(prog, g, n)
+            if okk2:
+                ok, d = True, dd2
+            else:
+                d = (d + " ; " if d else "") + (dd or "") + " ; " + (dd2 or "")
         res.ob("S-asc", "%s | ids are rebuilt in ascending order: for i in 0..%d, bit (%d - i) set => push i + 1" % (name, n, n - 1), ok, d, g.loc, sample=d)
     g = prog.fn("msg::cell_mask_id_vec")
     if g is None:
@@ -502,6 +509,16 @@ def rule_decode(prog, res, floor=49):
                     okvec = sigv.op == "call" and sigv.args[0] == "msg::mask_to_id_vec_u32"
                 ok = okdiv and okvec
                 d = "pushes (sat_vec[%s], sig_vec[%s])" % (show(si, ga.names), show(gi, ga.names))
+    import guardsem
+    if id(prog) not in _CELLSEM:
+        _CELLSEM[id(prog)] = guardsem.check_cellvec(prog)
+    okk, dd, nparts = _CELLSEM[id(prog)]
+    if okk is True:
+        ok, d = True, dd
+    elif okk is False:
+        ok, d = False, dd
+    else:
+        d = (d + " ; " if d else "") + (dd or "")
     res.ob("S-asc", "cell_mask_id_vec | cells are rebuilt row-major: cell i -> (sat_vec[i / |sig|], sig_vec[i % |sig|])", ok, d, g.loc, sample=d)
 
 
